@@ -5,6 +5,7 @@
  * guarantees about the generator state), so each schema is proved function by function.
  * The pre-state is built by the harness (assigned ghost handles; see contracts/parse.c for why). */
 #define MODEL_GHOST_DEFINE
+#define HAVE_BP_HOOK
 #include "gen_common.h"
 #ifdef SPEC_CHECKS_OFF
 #pragma CPROVER check push
@@ -229,6 +230,38 @@ __CPROVER_ensures((c) == 0 || CN(c)->t != NT_CALL || IS_BUILTIN(g_fname) || mode
                   (GOP(GNC - 1 - g_argc + g_k2) == OP_ARG && GPAR(GNC - 1 - g_argc + g_k2, PI_arg_target) == g_k2 &&
                    GPAR(GNC - 1 - g_argc + g_k2, PI_arg_source) >= 0 && (unsigned long)GPAR(GNC - 1 - g_argc + g_k2, PI_arg_source) < NREG)) /*@C03,C01*/;
 
+/* ------------------------------------------------------------------ backpatch (C03: every jump lands where its label says)
+ * N12 hook: every pending position is an instruction of the program whose operand, if it is a jump, is an existing label;
+ * a position is pending once (emitBackpatched records each emitted jump once); g_cfree is some position that is not pending. */
+unsigned long g_cfree;
+int gb_loc, gb_op, gb_lab, gb_p1, gb_p2, gb_tgt;
+void __verif_use_bp(int loc, unsigned long pos)
+{
+  __CPROVER_assume(loc >= 0 && (unsigned long)loc < GNC);
+  /* labels hold code positions, or -1 while unset */
+  __CPROVER_assume((GOP(loc) != OP_JMP && GOP(loc) != OP_JMPC) ||
+                   (GPAR(loc, 0) >= 0 && (unsigned long)GPAR(loc, 0) < NLAB && LABS[GPAR(loc, 0)] >= -1));
+  __CPROVER_assume((unsigned long)loc != g_cfree);
+  __CPROVER_assume(pos == g_bp || g_bp >= NBP || loc != gb_loc);
+}
+#define BP_IS_JUMP (gb_op == OP_JMP || gb_op == OP_JMPC)
+void c_backpatch(void *p)
+REQ_GS(p)
+/* snapshot of the ghost pending entry g_bp and of the instruction it names */
+__CPROVER_requires(g_bp >= NBP || (gb_loc == BPS[g_bp] && gb_loc >= 0 && (unsigned long)gb_loc < GNC && gb_op == GOP(gb_loc) && gb_lab == GPAR(gb_loc, 0) &&
+                   gb_p1 == GPAR(gb_loc, 1) && gb_p2 == GPAR(gb_loc, 2) &&
+                   (!BP_IS_JUMP || (gb_lab >= 0 && (unsigned long)gb_lab < NLAB && gb_tgt == LABS[gb_lab] && gb_tgt >= -1))))
+__CPROVER_requires(g_cfree >= GNC || (gc_op == GOP(g_cfree) && gc_p0 == GPAR(g_cfree, 0) && gc_p1 == GPAR(g_cfree, 1) && gc_p2 == GPAR(g_cfree, 2)))
+__CPROVER_assigns(__CPROVER_object_whole(GCODE), g_gs->backpatching_todo._n, g_gs->errors._n, __CPROVER_object_whole(g_gs->errors._d))
+/* every pending jump gets offset = position of its label - its own position; its opcode and other operands stay */
+__CPROVER_ensures(g_bp >= OLD(NBP) || !BP_IS_JUMP ||
+                  (GOP(gb_loc) == gb_op && GPAR(gb_loc, 0) == gb_tgt - gb_loc && GPAR(gb_loc, 1) == gb_p1 && GPAR(gb_loc, 2) == gb_p2)) /*@C03,C01*/
+/* an unset label is reported (C04: jump to an unknown mark) */
+__CPROVER_ensures(g_bp >= OLD(NBP) || !BP_IS_JUMP || gb_tgt != -1 || GNERR > OLD(GNERR)) /*@C04,C03*/
+/* instructions that are not pending are untouched; the program does not change size; the list is consumed */
+__CPROVER_ensures(g_cfree >= GNC || (GOP(g_cfree) == gc_op && GPAR(g_cfree, 0) == gc_p0 && GPAR(g_cfree, 1) == gc_p1 && GPAR(g_cfree, 2) == gc_p2)) /*@C03,C01*/
+__CPROVER_ensures(GNC == OLD(GNC) && NBP == 0 && GNERR >= OLD(GNERR) && GNERR <= g_gs->errors._cap) /*@C03*/;
+
 #ifdef SPEC_CHECKS_OFF
 #pragma CPROVER check pop
 #endif
@@ -307,6 +340,8 @@ void w_dispatchLoop(void *p, void *c);
 void h_fetchTemporary(void) { void *p = setup(); w_fetchTemporary(p); CANARY; }
 void h_fetchVariableRegister(void) { void *p = setup(); w_fetchVariableRegister(p, nondet_long()); CANARY; }
 void h_dispatchLoop(void) { void *p = setup(); void *c; w_dispatchLoop(p, c); CANARY; }
+void w_backpatch(void *p);
+void h_backpatch(void) { void *p = setup(); g_cfree = nondet_ulong(); gb_loc = nondet_int(); gb_op = nondet_int(); gb_lab = nondet_int(); gb_p1 = nondet_int(); gb_p2 = nondet_int(); gb_tgt = nondet_int(); w_backpatch(p); CANARY; }
 void w_dispatchWhile(void *p, void *c); void w_dispatchGoto(void *p, void *c); void w_dispatchMark(void *p, void *c);
 void w_dispatchAssign(void *p, void *c); void w_dispatchArgs(void *p, void *c);
 void h_dispatchWhile(void) { void *p = setup(); void *c; w_dispatchWhile(p, c); CANARY; }
